@@ -36,7 +36,8 @@ def gen_case(rng, chk, mode, explicit, as_fraction, tname=None):
     else:
         g_amount = F(rng.choice(Q_NUM), rng.choice(Q_DEN))
     g = g_amount * SI.scale(qu) / SI.scale(u)      # quantum in q's unit
-    k = rng.randint(-50, 50)
+    k = rng.choice([-2, -1, 0, 1]) if rng.random() < 0.3 else \
+        rng.randint(-50, 50)
     off = rng.choice(OFFSETS)
     frac = {"mult": F(0), "tie": F(1, 2), "tie+": F(1, 2) + F(1, 10 ** 6),
             "tie-": F(1, 2) - F(1, 10 ** 6), "third": F(1, 3),
@@ -84,6 +85,9 @@ def gen_case(rng, chk, mode, explicit, as_fraction, tname=None):
         chk.count("%s|%s|%s|%s" % (mode, "F" if q["at"] == "Fraction" else "D",
                                    "tie" if tie else "notie", sign))
         chk.count("explicit" if explicit else "default")
+        if tie and -1 <= xs / gs <= 1:
+            chk.count("zero-corner-tie|%s|%s" % (
+                mode, "F" if q["at"] == "Fraction" else "D"))
         if r is None or r.get("k") != "Q":
             chk.violation("quantize did not return a quantity",
                           dict(info=info, obs=obs, steps=steps, want=str(want)),
@@ -199,6 +203,9 @@ def run(chk, R, tier, seed):
             for tie in ("tie", "notie"):
                 for sign in ("pos", "neg"):
                     chk.require("%s|%s|%s|%s" % (mode, rep, tie, sign))
+    for mode in RM.MODES:
+        chk.require("zero-corner-tie|%s|F" % mode)
+        chk.require("zero-corner-tie|%s|D" % mode)
     chk.require("round|tie")
     chk.require("reject|othertype")
     chk.require("reject|noref-temp")
